@@ -201,6 +201,9 @@ func runProperty(prop string, seed uint64, tier, outdir string) error {
 	cf.Close()
 	inf.Close()
 
+	// concurrent replay of the same cases (conc.go)
+	runConcSibling(ctx, outdir)
+
 	rep.Evaluations = len(ctx.cases) + ctx.goOnly
 	ctx.dist["go_side_only_cases"] = ctx.goOnly
 	rep.DistinctNontriv = len(ctx.nontriv)
